@@ -247,6 +247,45 @@ def rule_r3(F, rep):
     rep.floor(R, sites, 2, "run-time fmt width/precision sites")
 
 
+def rule_r7(F, rep):
+    from . import pushgraph, evalmarks as em
+    R = rep.rule("C01.R7", "the evaluator's data stacks are used as stacks: a handler only ever removes *its own* entries from the "
+                 "top — every `drain` on one of the Evaluator's stacks takes a suffix (`len - n ..`), and no stack is cleared, "
+                 "retained or swap-removed. Evaluation is re-entrant (comparing array keys can start a nested sort in the middle "
+                 "of a partition), so a handler that takes entries from the bottom, or all of them, consumes what an enclosing "
+                 "handler parked there: results are paired with the wrong operands and a later `pop().unwrap()` finds the stack "
+                 "short")
+    n = 0
+    DENY = ("clear", "retain", "retain_mut", "swap_remove", "dedup", "dedup_by", "dedup_by_key", "split_off")
+    for fn in F.fn_list:
+        if fn.crate.name != "rsjsonnet_lang":
+            continue
+        body = fn.body
+        for bb, t in body.calls():
+            nm = callee_name(t) or ""
+            if not nm.startswith("<alloc::vec::Vec>::") or not t["xs"]:
+                continue
+            st = pushgraph._stack_field(F, body, t["xs"][0]) if fn.q.startswith("<%s>::" % em.EVAL) else None
+            if not st or not st.endswith("_stack"):
+                continue
+            op = nm.rsplit("::", 1)[1]
+            if op == "drain":
+                n += 1
+                rty = body.ty(t["xs"][1]["t"])["s"] if len(t["xs"]) > 1 and "t" in t["xs"][1] else "?"
+                ok = "RangeFrom<" in rty
+                rep.ob(R, "%s|drain|%s" % (fn.q.rsplit("::", 1)[-1], st), ok, {"handler": fn.q, "stack": st, "range": rty})
+                if not ok:
+                    rep.violation(R, "%s|drain-not-a-suffix|%s" % (fn.q, st), "%s drains %s with a range of type %s: only a suffix "
+                                  "`len - n ..` is the handler's own; entries below belong to enclosing handlers" % (fn.q.rsplit("::", 1)[-1], st, rty),
+                                  body.span(t["sp"]))
+            elif op in DENY:
+                n += 1
+                rep.ob(R, "%s|%s|%s" % (fn.q.rsplit("::", 1)[-1], op, st), False)
+                rep.violation(R, "%s|%s|%s" % (fn.q, op, st), "%s calls Vec::%s on %s: a shared evaluator stack is only pushed to and "
+                              "popped from the top" % (fn.q.rsplit("::", 1)[-1], op, st), body.span(t["sp"]))
+    rep.floor(R, n, 3, "drains on evaluator stacks")
+
+
 def run(F, rep, tier):
     rep.attempt(rule_r1, F, rep)
     rep.attempt(rule_r2, F, rep)
@@ -276,6 +315,7 @@ def run(F, rep, tier):
     # a parser panic on a malformed object comprehension (producer / consumer disagreement, C15.R7)
     from . import c15
     rep.attempt(c15.rule_r7, F, rep)
+    rep.attempt(rule_r7, F, rep)
     rep.assume("evaluator data-stack balance, index/arithmetic-overflow panics and unreachable!() reachability are "
                "not decided (no whole-evaluator stack-effect typing)")
     return EXPLANATION
